@@ -63,6 +63,13 @@ CLAIMED.update({
    note="Not generated (judgement, see DESIGN.md): signed integers in sub-byte fields, multi-byte fields whose declared width differs from the type's size, implicit width for f32. Trusts the reference packer in harness/vlib/src/wiregen.rs."),
 })
 
+CLAIMED.update({
+ "C09": dict(engine="simnet", category="exploration", design_ref="§5 C09",
+   technique="property-based testing against a simulated EtherCAT segment with ground truth: generated networks (devices, stale addresses, groups, capacities), real MainDevice::init, results compared with the generated description and the simulated devices' registers",
+   text="0..MAX+2 generated devices (stale/duplicate station addresses, 4/8 byte SII, with/without mailbox, DC level, names up to 64 bytes) are initialised by the real init() for MAX in {2,4,8,16} and three groups of generated capacity; on Ok every device must hold station address 0x1000+i, be in PRE-OP, and be reported exactly once with its own identity/name/alias/DC capability in the group the filter named; over-capacity must be a Capacity error; an empty / unprocessing network yields empty groups.",
+   note="Relative to the simulator (harness/vlib/src/simnet.rs), which is written from the ETG specifications and shares no code with ethercrab. Virtual time."),
+})
+
 NOT_YET = {}
 
 ALL = [f"C{i:02d}" for i in range(1,21)]
@@ -98,6 +105,7 @@ def main():
         {"name":"pdusim","path":"harness/vlib","serves_properties":[p for p in CLAIMED if CLAIMED[p]["engine"]=="pdusim"],"kind_free_text":"PDU-loop harness: real frame builder / TX / RX driven op by op under a virtual clock, reference frame encoder, slot snapshots through verif-hooks"},
         {"name":"sii","path":"harness/vlib/src/sii.rs","serves_properties":["C12","C13","C14"],"kind_free_text":"independent SII EEPROM encoder + in-memory EepromDataProvider (4/8 byte chunks, read budget), driven through the verif-hooks SiiQueries facade"},
         {"name":"wiregen","path":"harness/vlib/src/wiregen.rs","serves_properties":["C19"],"kind_free_text":"derive-program generator, Rust source emitter, request/response executor, bit-level reference packer"},
+        {"name":"simnet","path":"harness/vlib/src/simnet.rs","serves_properties":["C09"],"kind_free_text":"simulated EtherCAT segment: frame walk over ESC register/SII/SM/FMMU/AL/mailbox(CoE)/DC models, deterministic executor under the virtual clock, coherent device generator"},
         {"name":"a2","path":"harness/vlib/src/a2.rs","serves_properties":["C01","C02","C06"],"kind_free_text":"yield-level scheduler: parties as ucontext coroutines on one thread, baton handed over at every verif-hooks point, schedules generated (random/PCT) or enumerated (pre-emption bounded), ownership monitor"},
       ],
       "checks":checks,
